@@ -1549,6 +1549,9 @@ class PooledClient:
         with self.client_pool.get_and_release(destroy_on_fail=True) as client:
             try:
                 return client.get(key, default)
+            except MemcacheIllegalInputError:
+                # like Client: a bad argument is reported even with ignore_exc
+                raise
             except Exception:
                 if self.ignore_exc:
                     return default
@@ -1559,6 +1562,9 @@ class PooledClient:
         with self.client_pool.get_and_release(destroy_on_fail=True) as client:
             try:
                 return client.gat(key, expire, default)
+            except MemcacheIllegalInputError:
+                # like Client: a bad argument is reported even with ignore_exc
+                raise
             except Exception:
                 if self.ignore_exc:
                     return default
@@ -1571,6 +1577,9 @@ class PooledClient:
         with self.client_pool.get_and_release(destroy_on_fail=True) as client:
             try:
                 return client.gats(key, expire, default, cas_default)
+            except MemcacheIllegalInputError:
+                # like Client: a bad argument is reported even with ignore_exc
+                raise
             except Exception:
                 if self.ignore_exc:
                     return (default, cas_default)
@@ -1581,6 +1590,9 @@ class PooledClient:
         with self.client_pool.get_and_release(destroy_on_fail=True) as client:
             try:
                 return client.get_many(keys)
+            except MemcacheIllegalInputError:
+                # like Client: a bad argument is reported even with ignore_exc
+                raise
             except Exception:
                 if self.ignore_exc:
                     return {}
@@ -1595,6 +1607,9 @@ class PooledClient:
         with self.client_pool.get_and_release(destroy_on_fail=True) as client:
             try:
                 return client.gets(key, default, cas_default)
+            except MemcacheIllegalInputError:
+                # like Client: a bad argument is reported even with ignore_exc
+                raise
             except Exception:
                 if self.ignore_exc:
                     return (default, cas_default)
@@ -1605,6 +1620,9 @@ class PooledClient:
         with self.client_pool.get_and_release(destroy_on_fail=True) as client:
             try:
                 return client.gets_many(keys)
+            except MemcacheIllegalInputError:
+                # like Client: a bad argument is reported even with ignore_exc
+                raise
             except Exception:
                 if self.ignore_exc:
                     return {}
@@ -1648,6 +1666,9 @@ class PooledClient:
         with self.client_pool.get_and_release(destroy_on_fail=True) as client:
             try:
                 return client.stats(*args)
+            except MemcacheIllegalInputError:
+                # like Client: a bad argument is reported even with ignore_exc
+                raise
             except Exception:
                 if self.ignore_exc:
                     return {}
